@@ -103,6 +103,53 @@ func (c *synthCase) os2Bytes() []byte {
 
 const synthNumGlyphs = 4
 
+// fontSpec varies the tables around the cmap table (nil: all tables, one short name record).
+type fontSpec struct {
+	Drop     []string `json:"drop,omitempty"`      // tags left out, among OS/2 name head hhea hmtx maxp post
+	NameLens []int    `json:"name_lens,omitempty"` // one name record per entry, with a string of that many bytes
+	NameChar int      `json:"name_char,omitempty"` // UTF-16 code unit the name strings are made of (0: 'A')
+	PostPad  int      `json:"post_pad,omitempty"`  // extra bytes at the end of the post table
+}
+
+func (c *synthCase) dropped(tag string) bool {
+	if tag == "OS/2" && c.os2().Absent {
+		return true
+	}
+	if c.Font != nil {
+		for _, d := range c.Font.Drop {
+			if d == tag {
+				return true
+			}
+		}
+	}
+	return false
+}
+
+// nameBytes serialises a format 0 name table: records (3,1,0x409) with name ids 1, 2, 3, ...
+func (c *synthCase) nameBytes() []byte {
+	lens, ch := []int{6}, uint16('A')
+	if c.Font != nil && len(c.Font.NameLens) > 0 {
+		lens = c.Font.NameLens
+	}
+	if c.Font != nil && c.Font.NameChar != 0 {
+		ch = uint16(c.Font.NameChar)
+	}
+	var w, strs wr
+	w.u16(0)
+	w.u16(uint16(len(lens)))
+	w.u16(uint16(6 + 12*len(lens)))
+	for i, l := range lens {
+		l &^= 1
+		for _, v := range []uint16{3, 1, 0x409, uint16(i + 1), uint16(l), uint16(len(strs.b))} {
+			w.u16(v)
+		}
+		for k := 0; k < l/2; k++ {
+			strs.u16(ch)
+		}
+	}
+	return append(w.b, strs.b...)
+}
+
 // fontBytes wraps the cmap table of the case into a minimal TrueType file.
 func (c *synthCase) fontBytes() []byte {
 	head := make([]byte, 54)
@@ -121,30 +168,34 @@ func (c *synthCase) fontBytes() []byte {
 	maxp := []byte{0, 0, 0x50, 0, 0, synthNumGlyphs} // version 0.5
 	post := make([]byte, 32)
 	copy(post, []byte{0, 3, 0, 0})
-	// name: one record (3,1,0x409, nameID 1) "C11"
-	var name wr
-	family := []byte{0, 'C', 0, '1', 0, '1'}
-	name.u16(0)
-	name.u16(1)
-	name.u16(6 + 12)
-	for _, v := range []uint16{3, 1, 0x409, 1, uint16(len(family)), 0} {
-		name.u16(v)
+	if c.Font != nil && c.Font.PostPad > 0 {
+		pad := make([]byte, c.Font.PostPad)
+		for i := range pad {
+			pad[i] = byte(0xB0 + i%7)
+		}
+		post = append(post, pad...)
 	}
-	name.b = append(name.b, family...)
-
-	tbs := []ot.Table{}
-	if !c.os2().Absent {
-		tbs = append(tbs, ot.Table{Tag: ot.MustNewTag("OS/2"), Content: c.os2Bytes()})
+	all := []ot.Table{ // sorted by tag, as WriteTTF requires
+		{Tag: ot.MustNewTag("OS/2"), Content: nil},
+		{Tag: ot.MustNewTag("cmap"), Content: c.serialize()},
+		{Tag: ot.MustNewTag("head"), Content: head},
+		{Tag: ot.MustNewTag("hhea"), Content: hhea},
+		{Tag: ot.MustNewTag("hmtx"), Content: hmtx},
+		{Tag: ot.MustNewTag("maxp"), Content: maxp},
+		{Tag: ot.MustNewTag("name"), Content: c.nameBytes()},
+		{Tag: ot.MustNewTag("post"), Content: post},
 	}
-	tbs = append(tbs,
-		ot.Table{Tag: ot.MustNewTag("cmap"), Content: c.serialize()},
-		ot.Table{Tag: ot.MustNewTag("head"), Content: head},
-		ot.Table{Tag: ot.MustNewTag("hhea"), Content: hhea},
-		ot.Table{Tag: ot.MustNewTag("hmtx"), Content: hmtx},
-		ot.Table{Tag: ot.MustNewTag("maxp"), Content: maxp},
-		ot.Table{Tag: ot.MustNewTag("name"), Content: name.b},
-		ot.Table{Tag: ot.MustNewTag("post"), Content: post},
-	)
+	var tbs []ot.Table
+	for _, tb := range all {
+		tag := tb.Tag.String()
+		if c.dropped(tag) {
+			continue
+		}
+		if tag == "OS/2" {
+			tb.Content = c.os2Bytes()
+		}
+		tbs = append(tbs, tb)
+	}
 	return ot.WriteTTF(tbs)
 }
 
